@@ -306,7 +306,7 @@ def mk_mul(name, D, L, sgn, opn="mul", shape=None, mode="int"):
                 seeds.append(mk(us, vs))
             return seeds
     k_ = Kernel(name, args, "i32", body, mode=mode, W=None if mode == "int" else (lw * (shape[0] + 1) + 8), pre=pre, claims=claims,
-                  unwind=6 * n + 24, max_paths=40000, timeout=240 if shape is None else 8,
+                  unwind=6 * n + 24, max_paths=40000, timeout=240 if shape is None else 3,
                   guided_seeds=gs,
                   desc="wide_integer<%d,%s%s> %s (%d limbs)%s" % (D, "s" if sgn else "u", L[1:], o, n, (" operands with %d/%d significant limbs" % shape) if shape else ""),
                   tags={"op": opn, "D": D, "L": L, "sgn": sgn, "limbs": n})
@@ -347,13 +347,16 @@ def kernels(opts):
             if limbs_of(D, L, sgn) <= (4 if tier == "quick" else 5):
                 ks.append(mk_mul("K%d" % len(ks), D, L, sgn, "mul"))
             if L == "u8" and not sgn:
-                # 8-bit limbs make Knuth's rare branches (quotient-digit correction, add-back) common: trace-guided,
-                # operands restricted to a few significant limbs so that the oracle stays a 32..40-bit problem
-                ks.append(mk_mul("K%d" % len(ks), D, L, sgn, "div", shape=(4, 2), mode="int"))
+                # 8-bit limbs make Knuth's rare branches (quotient-digit correction, add-back: divisors of >= 3 limbs)
+                # common enough to be met: trace-guided (concrete trace discovery + per-trace symbolic execution),
+                # operands restricted to a few significant limbs.  The per-path division obligations are mostly
+                # beyond the solvers (reported as undecided); what this stage adds is the replay of every discovery
+                # input whose IR-level result violates the oracle.
                 ks.append(mk_mul("K%d" % len(ks), D, L, sgn, "div", shape=(5, 3), mode="int"))
                 if tier != "quick":
-                    ks.append(mk_mul("K%d" % len(ks), D, L, sgn, "rem", shape=(4, 2), mode="bv"))
-                    ks.append(mk_mul("K%d" % len(ks), D, L, sgn, "div", shape=(6, 2), mode="bv"))
+                    ks.append(mk_mul("K%d" % len(ks), D, L, sgn, "rem", shape=(5, 3), mode="int"))
+                    ks.append(mk_mul("K%d" % len(ks), D, L, sgn, "div", shape=(8, 4), mode="int"))
+                    ks.append(mk_mul("K%d" % len(ks), D, L, sgn, "div", shape=(4, 2), mode="int"))
             if limbs_of(D, L, sgn) <= 3 and not sgn:
                 # multi-limb divisors take Knuth's algorithm D (single-limb divisors use a separate short routine)
                 ks.append(mk_mul("K%d" % len(ks), D, L, sgn, "div", shape=(3, 2)))
